@@ -840,6 +840,74 @@ mod shimtest {
             if file_ext::FileExt::is_symlink(f2.to_str().unwrap()).ok() != Some(false) { h.hit("shims", "shim_is_symlink", "FileExt::is_symlink", "g.bin", ""); }
             if file_ext::FileExt::read_file_partially(f2.to_str().unwrap(), 0, 4097).map(|v| v.len()).ok() != Some(4097) { h.hit("shims", "shim_read_whole", "FileExt::read_file_partially", "g.bin 0-4097", ""); }
         }
+        // ---- session 3: the shims behind the JSON / UrlPath / config units and the dependency precondition ----
+        // dep_url_safe: no panic when the text before the target's first '/' holds no ':'; (and the panic IS real for ":x/")
+        for t in ss.iter().map(|s| s.as_str()).chain(["", "/", "/a:b", "?a=b", "#f", "a", "a/b:c", "?x/:y", "/:x", "//:x", "a@b/c:d", "[x]/", "]/:"]) {
+            let lead = t.split('/').next().unwrap_or("");
+            if lead.contains(':') { continue; }
+            let u = format!("http://localhost{}", t);
+            if panic::catch_unwind(|| { let _ = crate::url::URL::parse(&u); }).is_err() { h.hit("shims", "shim_dep_url_safe", "url_build_parse::parse_url", t, "panic although the leading part holds no ':'"); }
+        }
+        if panic::catch_unwind(|| { let _ = crate::url::URL::parse("http://localhost:x/"); }).is_ok() { h.hit("shims", "shim_dep_url_unsafe", "url_build_parse::parse_url", ":x/", "expected the documented panic (the precondition would be unnecessary)"); }
+        // Cursor::read_exact / read_until(any delimiter) on in-memory cursors
+        {
+            use std::io::{BufRead, Read};
+            let data: Vec<u8> = (0..=255u8).chain([b'{', b'"', b',', b'{']).collect();
+            for d in [b'{', b'"', b',', b'\n', 0u8, 255u8] {
+                let mut c = std::io::Cursor::new(&data[..]);
+                let mut pos = 0usize;
+                loop {
+                    let mut buf = vec![7u8];
+                    let n = c.read_until(d, &mut buf).unwrap();
+                    let want = data[pos..].iter().position(|b| *b == d).map(|k| k + 1).unwrap_or(data.len() - pos);
+                    if n != want || buf[1..] != data[pos..pos + want] { h.hit("shims", "shim_read_until_any", "Cursor::read_until", &d.to_string(), &format!("{} expected {}", n, want)); break; }
+                    pos += n;
+                    if n == 0 { break; }
+                }
+            }
+            for (len, k) in [(0usize, 1usize), (1, 1), (3, 1), (3, 3), (3, 4), (2, 3), (5, 0)] {
+                let src = String::from_utf8(vec![b'a'; len]).unwrap();
+                let mut c = std::io::Cursor::new(src.clone());
+                let mut buf = vec![0u8; k];
+                let r = c.read_exact(&mut buf);
+                if r.is_ok() != (k <= len) || buf.len() != k || (r.is_ok() && buf != src.as_bytes()[..k]) { h.hit("shims", "shim_read_exact", "Cursor::read_exact", &format!("{}/{}", len, k), ""); }
+                let mut rest = vec![];
+                let _ = c.read_to_end(&mut rest);
+                if r.is_ok() && rest.len() != len - k { h.hit("shims", "shim_read_exact", "Cursor::read_exact", &format!("{}/{}", len, k), "position after a successful read"); }
+                if rest.len() > len { h.hit("shims", "shim_read_exact", "Cursor::read_exact", &format!("{}/{}", len, k), "un-read bytes"); }
+            }
+        }
+        // char classes: numeric and white space are disjoint; is_ascii_control == (< 0x20 or 0x7f)
+        for u in 0u32..0x11_0000 { if let Some(c) = char::from_u32(u) {
+            if c.is_numeric() && c.is_whitespace() { h.hit("shims", "shim_numeric_not_ws", "char", &u.to_string(), ""); }
+            if c.is_ascii_control() != (u < 0x20 || u == 0x7f) { h.hit("shims", "shim_is_ascii_control", "char", &u.to_string(), ""); }
+        } }
+        // s[a..b] at character boundaries; find(char) returns a boundary; strip_prefix; String::remove(0); replace / contains / split_once with a char
+        for x in ss.iter().map(|s| s.as_str()).chain(["", "\"ab\"", "\"\u{e9}\"", "a\u{20ac}b/c", "//", "\u{e9}"]) {
+            let idx: Vec<usize> = x.char_indices().map(|(i, _)| i).chain([x.len()]).collect();
+            for (j, a) in idx.iter().enumerate() { for b in idx[j..].iter() {
+                let cs: Vec<char> = x.chars().collect();
+                let k = idx.iter().position(|i| i == b).unwrap();
+                if x[*a..*b].to_string() != cs[j..k].iter().collect::<String>() { h.hit("shims", "shim_substring", "str index", x, ""); }
+            } }
+            for c in ['/', 'a', '\u{e9}', '"'] {
+                match x.find(c) { Some(i) => if !x.is_char_boundary(i) || x[i..].chars().next() != Some(c) || x[..i].contains(c) { h.hit("shims", "shim_find_char", "str::find", x, ""); }, None => if x.contains(c) { h.hit("shims", "shim_find_char", "str::find", x, ""); } }
+                if x.contains(c) != x.chars().any(|d| d == c) { h.hit("shims", "shim_contains_char", "str::contains", x, ""); }
+                if x.replace(c, "") != x.chars().filter(|d| *d != c).collect::<String>() { h.hit("shims", "shim_replace_char", "str::replace", x, ""); }
+                if let Some((a, b)) = x.split_once(c) { if format!("{}{}{}", a, c, b) != x { h.hit("shims", "shim_split_once_char", "str::split_once", x, ""); } }
+            }
+            if x.replace("_", "-") != x.chars().map(|d| if d == '_' { '-' } else { d }).collect::<String>() { h.hit("shims", "shim_replace_1_1", "str::replace", x, ""); }
+            if let Some(r) = x.strip_prefix("a") { if format!("a{}", r) != x { h.hit("shims", "shim_strip_prefix", "str::strip_prefix", x, ""); } }
+            if !x.is_empty() { let mut y = x.to_string(); let c = y.remove(0); if Some(c) != x.chars().next() || y != x.chars().skip(1).collect::<String>() { h.hit("shims", "shim_string_remove0", "String::remove", x, ""); } }
+            if x.replace(|c: char| c.is_ascii_control(), "") != x.chars().filter(|c| !c.is_ascii_control()).collect::<String>() { h.hit("shims", "shim_replace_ctl", "str::replace", x, ""); }
+        }
+        // std::env::set_var: fine for a valid key and a NUL-free value; panics on NUL in the value, on '=' / NUL / empty in the key
+        if panic::catch_unwind(|| std::env::set_var("RWS_VERIF_SHIM_TEST", "a=b \u{e9}")).is_err() { h.hit("shims", "shim_set_var_ok", "env::set_var", "", "panic on a valid pair"); }
+        for (k, v) in [("RWS_VERIF_SHIM_TEST", "a\0b"), ("", "x"), ("A=B", "x"), ("A\0B", "x")] {
+            if panic::catch_unwind(|| std::env::set_var(k, v)).is_ok() { h.hit("shims", "shim_set_var_panics", "env::set_var", k, "expected the documented panic (the precondition would be unnecessary)"); }
+        }
+        // <T as FromStr>: a Result for any text
+        for x in ss.iter() { let _ = x.parse::<i128>(); let _ = x.parse::<u128>(); let _ = x.parse::<f64>(); let _ = x.parse::<f32>(); let _ = x.parse::<i8>(); let _ = x.parse::<bool>(); if x.parse::<String>().ok().as_deref() != Some(x.as_str()) { h.hit("shims", "shim_parse_string", "String::from_str", x, ""); } }
         if file_ext::FileExt::get_path_separator() != "/" { h.hit("shims", "shim_separator", "FileExt::get_path_separator", "", ""); }
         let cwd = std::env::current_dir().unwrap();
         if file_ext::FileExt::get_static_filepath("/x").ok() != Some(format!("{}/x", cwd.to_str().unwrap())) { h.hit("shims", "shim_static_filepath", "FileExt::get_static_filepath", "", ""); }
